@@ -431,6 +431,9 @@ class Shell:
           printed.
         """
         if not args:
+            if self.debugger.finished():
+                print("Program has finished executing.")
+                return
             args = [self.debugger.op().name]
 
         for arg in args:
@@ -790,7 +793,7 @@ class Shell:
             print("step takes no arguments.")
             return
 
-        if self.debugger.op().name != "CALL":
+        if self.debugger.finished() or self.debugger.op().name != "CALL":
             print("step is only valid when the current instruction is CALL.")
             return
 
@@ -876,18 +879,21 @@ class Shell:
             print("Call stack (last call at bottom)")
             for call_address, return_address in vm.expected_returns:
                 fname = self.debugger.find_label(call_address)
-                floc = self.debugger.instruction_number_to_location(
-                    call_address, append_label=False
-                )
-                rloc = self.debugger.instruction_number_to_location(
-                    return_address - 1, append_label=False
-                )
+                floc = self.describe_instruction(call_address)
+                rloc = self.describe_instruction(return_address - 1)
                 if fname is not None:
                     print("  {} ({}, called from {})".format(fname, floc, rloc))
                 else:
                     print("  {} (called from {})".format(floc, rloc))
         else:
             print("The call stack is empty.")
+
+    def describe_instruction(self, ino: int) -> str:
+        """Location of an instruction, or its number if it lies outside the program."""
+        if 0 <= ino < len(self.debugger.program.code):
+            return self.debugger.instruction_number_to_location(ino, append_label=False)
+        else:
+            return "instruction {}".format(ino)
 
     def info_symbols(self) -> None:
         constants = []
